@@ -65,6 +65,9 @@ def norm_key(k):
     return " ".join(k.split())
 
 
+BOTTOM = "\ue000DIVERGES\ue000"
+
+
 class OutOfDomain(Exception):
     """The case left the domain on which the reference is defined."""
 
@@ -112,12 +115,29 @@ class Interp:
     def eval_seq(self, seq, frame, selective=False):
         return "".join(self.eval_node(n, frame, selective) for n in seq)
 
+    def _eval_arg(self, seq, frame):
+        """Argument value; with bottom_args on, an argument whose evaluation
+        diverges (cycle / excessive depth) becomes a marker instead of
+        aborting the whole evaluation - the caller can then see whether the
+        divergent value is ever used."""
+        if not getattr(self, "bottom_args", False):
+            return self.eval_seq(seq, frame)
+        depth = len(self.stack)
+        try:
+            return self.eval_seq(seq, frame)
+        except Budget as e:
+            if str(e) == "fuel":
+                raise
+            del self.stack[depth:]
+            self.stats["bottom_args"] = self.stats.get("bottom_args", 0) + 1
+            return BOTTOM
+
     def build_args(self, arglist, frame):
         args = {}
         num = 1
         for a in arglist:
             if a[0] == "pos":
-                v = self.eval_seq(a[1], frame)
+                v = self._eval_arg(a[1], frame)
                 if v.endswith("\n"):
                     raise OutOfDomain("positional value ends in newline")
                 if "=" in v:
@@ -126,7 +146,7 @@ class Interp:
                 num += 1
             else:
                 k = norm_key(a[1])
-                raw = self.eval_seq(a[2], frame)
+                raw = self._eval_arg(a[2], frame)
                 v = trim(raw)
                 p = a[3]
                 if any(p) or raw != v:
